@@ -150,8 +150,8 @@ class Family:
         return sorted(have)
 
     def mergeable_top(self) -> bool:
-        # the 12 faces are never merged into the world cell ("can't compact below resolution 0")
-        return self.r - 1 >= 1
+        # the statement counts "all 12" faces as a complete group as well (they merge into the world cell)
+        return True
 
     def name_of(self, form: Lin) -> Optional[tuple]:
         for nm in self.all_names():
